@@ -25,7 +25,8 @@ RULE = ("family optprog: 28 hand-written programs over rarely used public API (c
         "asyncio.run, exotic failures, NonAsyncContext, batch.cancel(), synchronous re-entry, aretry, the collection helpers, "
         "AsyncTimer, method kinds, arguments with awkward repr(), every class of future, flush hooks calling asynq, a second "
         "thread, a 60-deep and 120-wide program, the diagnostic API) each under the profiling pair, everything flipped, all dumps, "
-        "single options and random subsets; then "
+        "single options and random subsets; plus 5 programs whose VALUES are futures / generator objects / batch items "
+        "(checks/optprogs6.py; returned, in containers, as arguments) with ENABLE_COMPLEX_ASSERTIONS off and on (c20.optprog6_cases); then "
         "grammar-generated task programs (profiles %s) each run under the default options and under a random subset of "
         "the boolean debug options with a scripted clock (1 us .. 2 h per reading), both builds; non-trivial = at least 2 "
         "tasks and 1 scheduler flush; distinct by hash of (configuration, programs, options)" % ", ".join(p for p, _ in MIX))
@@ -70,7 +71,7 @@ def optprog_cases(tier, rng):
     from checks import optprogs
     dumps = [o for o in BOOL_OPTS if o.startswith("DUMP_")]
     cases = []
-    for name in sorted(optprogs.PROGRAMS):
+    for name in sorted(n for n in optprogs.PROGRAMS if n not in optprogs.optprogs6.PROGRAMS):   # (those: optprog6_cases)
         def clock():
             return [rng.choice(STEPS[:6] if rng.random() < 0.7 else STEPS) for _ in range(rng.randint(1, 4))]
         sets = [{"COLLECT_PERF_STATS": True, "KEEP_DEPENDENCIES": True}, {"COLLECT_PERF_STATS": True}, {"KEEP_DEPENDENCIES": True},
@@ -85,6 +86,34 @@ def optprog_cases(tier, rng):
         sets += singles
         for o in sets:
             o["_clock"] = clock()
+        sets += [gen_opts(rng) for _ in range(4 if tier == "quick" else 40)]
+        cases += [{"special": "optprog", "prog": name, "opts": o} for o in sets]
+    return cases
+
+
+def optprog6_cases(tier, rng):
+    """round 5 (checks/optprogs6.py: futures / generator objects / batch items as VALUES of async functions): every program
+    with ENABLE_COMPLEX_ASSERTIONS switched OFF alone (the library's default is ON, so the base run has it on), off together
+    with the profiling pair / all dumps, ON (default) with the profiling pair, all dumps, everything else flipped, each other
+    boolean option alone (quick: a rotating 5) and random subsets"""
+    from checks import optprogs6
+    dumps = [o for o in BOOL_OPTS if o.startswith("DUMP_")]
+    cases = []
+    for name in sorted(optprogs6.PROGRAMS):
+        sets = [{"ENABLE_COMPLEX_ASSERTIONS": False},
+                {"ENABLE_COMPLEX_ASSERTIONS": False, "COLLECT_PERF_STATS": True, "KEEP_DEPENDENCIES": True},
+                dict({o: True for o in dumps}, ENABLE_COMPLEX_ASSERTIONS=False, SCHEDULER_STATE_DUMP_INTERVAL=0),
+                {"COLLECT_PERF_STATS": True, "KEEP_DEPENDENCIES": True}, {"COLLECT_PERF_STATS": True}, {"KEEP_DEPENDENCIES": True},
+                dict({o: True for o in dumps}, COLLECT_PERF_STATS=True, KEEP_DEPENDENCIES=True, SCHEDULER_STATE_DUMP_INTERVAL=0),
+                {o: (o != "DUMP_PRE_ERROR_STATE") for o in BOOL_OPTS if o != "ENABLE_COMPLEX_ASSERTIONS"},
+                {o: (o not in ("DUMP_PRE_ERROR_STATE", "ENABLE_COMPLEX_ASSERTIONS")) for o in BOOL_OPTS}]
+        singles = [{o: o != "DUMP_PRE_ERROR_STATE"} for o in BOOL_OPTS if o not in ("COLLECT_PERF_STATS", "KEEP_DEPENDENCIES", "ENABLE_COMPLEX_ASSERTIONS")]
+        if tier == "quick":
+            rng.shuffle(singles)
+            singles = singles[:5]
+        sets += singles
+        for o in sets:
+            o["_clock"] = [rng.choice(STEPS[:6] if rng.random() < 0.7 else STEPS) for _ in range(rng.randint(1, 4))]
         sets += [gen_opts(rng) for _ in range(4 if tier == "quick" else 40)]
         cases += [{"special": "optprog", "prog": name, "opts": o} for o in sets]
     return cases
@@ -131,7 +160,7 @@ def plan(tier, seed):
             c["opts"]["COLLECT_PERF_STATS"] = True
         c["hook"] = "peek"
         cases.append(c)
-    return cc.corpus(PID) + optprog_cases(tier, random.Random(seed * 1000003 + 21)) + \
+    return cc.corpus(PID) + optprog_cases(tier, random.Random(seed * 1000003 + 21)) + optprog6_cases(tier, random.Random(seed * 1000003 + 23)) + \
         guard_cases(tier, random.Random(seed * 1000003 + 22)) + cases[len(cc.corpus(PID)):]
 
 
